@@ -10,6 +10,7 @@ import CookModel.Lemmas.RecipeSimBlank
 import CookModel.Lemmas.TrailInst
 import CookModel.Lemmas.AuditC17
 import CookModel.Lemmas.LooseComp
+import CookModel.Lemmas.LooseStep
 import CookModel.Lemmas.LooseFront
 import CookModel.Lemmas.TableFacts
 /-
@@ -1867,6 +1868,97 @@ example : EmptyLine (lexFrom toyCharSpec 17 "-- c\n".toList) := by
     decide
   rw [this]
   exact ⟨⟨[⟨.lineComment, "-- c".toList, 17⟩], ⟨.newline, ['\n'], 21⟩, rfl, by decide, rfl⟩, by decide⟩
+
+/-- **Filler inside component bodies: the same recipe — well-formed recipes** (closes clause 4b at
+    recipe level).  `doc` is a document of the round-trip grammar (`DocWF`: the conditions of
+    `C01_recipe_doc`).  `docF` is a document whose blocks are those of `doc` except that braces
+    ingredients / cookware items / timers of its steps may be spelled WITH block comments and blank
+    whitespace tokens inserted behind a blank of their name, alias, note or unit (`DocItemF`, `SegF`,
+    `CompFiller`, `TimerFiller`; `docCleanF` forgets the filler; any number of components and steps may
+    carry filler).  Hypotheses on the transformed source are the token-level ones only: its blocks have
+    the block shape, its components are followed as the grammar demands (`DocItemF.OK`), separators
+    are separators, the list is spelled as the lexer spells it, and it has no front-matter fence.
+    Statement: both sources parse to a recipe, and the recipes are the same in the sense of the
+    property (`SameRecipe`) — in fact with EQUAL sections, steps, items, text items, tables, metadata
+    map, servings (`bl17_docF_same`), no white-space allowance being needed: the filler is inside runs
+    that are read through `text_trimmed`.
+    Excluded, and false of the real code before the repair on branch w5advfix: a comment directly in
+    front of the unit of a quantity written WITHOUT `%` under ADVANCED_UNITS (finding O5). -/
+theorem C17_filler_in_component_bodies_same_recipe {α : Type} [Arith α] (ws : Char → Bool) (env : Env)
+    (hsp : env.cs.uws ' ' = true) (pre' pre : List Tok) (docF : List (DocItemF × List Tok))
+    (doc : List (DocItem × List Tok)) (h : DocWF α env pre doc)
+    (hclean : (docCleanF docF).map (·.1) = doc.map (·.1))
+    (hpre' : blankLinesOK pre' = true) (hok : ∀ d ∈ docF, d.1.OK env.cs env.ext)
+    (hseps : sepsOK (docF.map (·.2)) = true) (hw : WellSpelled env.cs (pre' ++ docSpecF docF))
+    (hfm : parseFrontmatter env.cs (render (pre' ++ docSpecF docF)) = none) :
+    SameRecipe ws (parseRecipe (α := α) env (render (pre' ++ docSpecF docF)))
+      (parseRecipe (α := α) env (render (pre ++ docSpec doc))) := by
+  have hmem : ∀ d ∈ docCleanF docF, ∃ d0 ∈ doc, d0.1 = d.1 := by
+    intro d hd
+    have : d.1 ∈ (docCleanF docF).map (·.1) := List.mem_map_of_mem hd
+    rw [hclean] at this
+    obtain ⟨d0, hd0, e⟩ := List.mem_map.1 this
+    exact ⟨d0, hd0, e⟩
+  have hF : DocWFF α env pre' docF :=
+    ⟨hpre', hok,
+     fun d hd => by obtain ⟨d0, hd0, e⟩ := hmem d hd; rw [← e]; exact h.ok d0 hd0,
+     fun d hd => by obtain ⟨d0, hd0, e⟩ := hmem d hd; rw [← e]; exact h.simple d0 hd0,
+     fun d hd => by obtain ⟨d0, hd0, e⟩ := hmem d hd; rw [← e]; exact h.plain d0 hd0,
+     fun d hd => by obtain ⟨d0, hd0, e⟩ := hmem d hd; rw [← e]; exact h.ext d0 hd0,
+     hseps, hw, hfm⟩
+  obtain ⟨c', c, e', e, hs, hi, hc, ht, hm, hq, hf, hv, hd⟩ := bl17_docF_same (α := α) env hsp pre' pre docF doc hF h hclean
+  rw [e', e]
+  refine ⟨?_, hd⟩
+  show SameCol ws c' c
+  exact ⟨by rw [hs]; exact LRel.refl_of (LooseSection.refl ws) _, hi, hc, ht, hq, hm,
+    by rw [hf]; exact OptRel.refl_of (A := A17FmSame) (fun _ => rfl) _, hv⟩
+
+/-! non-vacuity: `Add @olive [- c -] oil{1%big [- c -] cup}(very [- c -] fine) now⏎` against
+    `Add @olive oil{1%big cup}(very fine) now⏎` -/
+def C17_exDocCompF : List (DocItemF × List Tok) :=
+  [(.stepF [.x (.text [tk .word "Add".toList, tk .ws [' ']]), .ingredient C17_exCompF C17_exComp {},
+            .x (.text [tk .ws [' '], tk .word "now".toList])], [tk .newline ['\n']])]
+def C17_exDocComp : List (DocItem × List Tok) :=
+  [(.step [.text [tk .word "Add".toList, tk .ws [' ']], .ingredient C17_exComp {},
+           .text [tk .ws [' '], tk .word "now".toList]], [tk .newline ['\n']])]
+
+example : render ([] ++ docSpecF C17_exDocCompF) = "Add @olive [- c -] oil{1%big [- c -] cup}(very [- c -] fine) now\n".toList ∧
+    render ([] ++ docSpec C17_exDocComp) = "Add @olive oil{1%big cup}(very fine) now\n".toList := by decide
+
+theorem C17_exDocComp_wf : DocWF Rat C17_toyEnv [] C17_exDocComp := by
+  have h1 : (∀ d ∈ C17_exDocComp, d.1.ok C17_toyEnv.cs C17_toyEnv.ext = true) ∧ (∀ d ∈ C17_exDocComp, d.1.simple = true) ∧
+      sepsOK (C17_exDocComp.map (·.2)) = true ∧ WellSpelled C17_toyEnv.cs ([] ++ docSpec C17_exDocComp) ∧
+      (parseFrontmatter C17_toyEnv.cs (render ([] ++ docSpec C17_exDocComp))).isNone = true := by decide
+  obtain ⟨a, b, c, d, e⟩ := h1
+  refine ⟨by decide, a, b, ?_, ?_, c, d, by simpa using e⟩
+  · intro x hx
+    simp only [C17_exDocComp, List.mem_cons, List.not_mem_nil, or_false] at hx
+    subst hx; trivial
+  · intro x hx
+    simp only [C17_exDocComp, List.mem_cons, List.not_mem_nil, or_false] at hx
+    subst hx
+    intro sg hsg
+    simp only [List.mem_cons, List.not_mem_nil, or_false] at hsg
+    rcases hsg with rfl | rfl | rfl
+    · intro hh; exact absurd hh (by decide)
+    · trivial
+    · intro hh; exact absurd hh (by decide)
+
+example : SameRecipe (α := Rat) (fun c => c = ' ')
+    (parseRecipe C17_toyEnv (render ([] ++ docSpecF C17_exDocCompF)))
+    (parseRecipe C17_toyEnv (render ([] ++ docSpec C17_exDocComp))) :=
+  C17_filler_in_component_bodies_same_recipe _ C17_toyEnv (by decide) [] [] C17_exDocCompF C17_exDocComp C17_exDocComp_wf rfl
+    (by decide)
+    (by
+      intro d hd
+      simp only [C17_exDocCompF, List.mem_cons, List.not_mem_nil, or_false] at hd
+      subst hd
+      refine ⟨⟨show SegX.ok _ _ _ = true by decide, by decide, ⟨C17_exCompFiller, by decide, by decide⟩, by decide,
+        show SegX.ok _ _ _ = true by decide, by decide, trivial⟩, by decide, by decide⟩)
+    (by decide) (by decide)
+    (by
+      have : (parseFrontmatter C17_toyEnv.cs (render ([] ++ docSpecF C17_exDocCompF))).isNone = true := by decide
+      simpa using this)
 -- ===== end w5c17body =====
 
 end Cook
